@@ -283,7 +283,12 @@ func fieldName(fa *ssa.FieldAddr) string {
 	return st.Field(fa.Field).Name()
 }
 
-func (h *bufHooks) OnStore(c *engine.Ctx, instr ssa.Instruction, addr engine.Ptr, val engine.AbsVal) {
+func (h *bufHooks) OnStore(c *engine.Ctx, instr ssa.Instruction, addr engine.Ptr, val engine.AbsVal) engine.AbsVal {
+	h.onStore(c, instr, addr, val)
+	return nil
+}
+
+func (h *bufHooks) onStore(c *engine.Ctx, instr ssa.Instruction, addr engine.Ptr, val engine.AbsVal) {
 	// which leaf of which buffer?
 	leaf := addr.Path
 	prefix := ""
